@@ -3,6 +3,7 @@ Line-protocol loop.  stdin: `<prop> <case-term> <impl-obs-term>` per line; stdou
 per input line.  `flags` as the first argument prints the deviation flags read off the tables.
 -/
 import Ggql.Driver.C01
+import Ggql.Driver.C02
 import Ggql.Driver.C03
 import Ggql.Driver.C04
 import Ggql.Driver.C05
@@ -58,6 +59,7 @@ def handleLine (tb : Tables) (line : String) : String :=
       | _, p => p
     match prop with
     | "C01" => C01.handle tb c impl
+    | "C02" => C02.handle tb c impl
     | "C03" => C03.handle tb c impl
     | "C04" => C04.handle tb c impl
     | "C05" => C05.handle tb c impl
@@ -78,7 +80,7 @@ def handleLine (tb : Tables) (line : String) : String :=
     | "C20" => C20.handle tb c impl
     | _ => "bad-op"
 
-def allFlags (tb : Tables) : List (String × List (String × Bool)) := [("C01", C01.flags tb), ("C03", C03.flags tb), ("C04", C04.flags tb), ("C05", C05.flags tb), ("C06", C06.flags tb), ("C07", C07.flags tb), ("C08", C08.flags tb), ("C09", C09.flags tb), ("C10", C10.flags tb), ("C11", C11.flags tb), ("C12", C12.flags tb), ("C13", C13.flags tb), ("C14", C14.flags tb), ("C15", C15.flags tb), ("C16", C16.flags tb), ("C17", C17.flags tb), ("C18", C18.flags tb), ("C19", C19.flags tb), ("C20", C20.flags tb)]
+def allFlags (tb : Tables) : List (String × List (String × Bool)) := [("C01", C01.flags tb), ("C02", C02.flags tb), ("C03", C03.flags tb), ("C04", C04.flags tb), ("C05", C05.flags tb), ("C06", C06.flags tb), ("C07", C07.flags tb), ("C08", C08.flags tb), ("C09", C09.flags tb), ("C10", C10.flags tb), ("C11", C11.flags tb), ("C12", C12.flags tb), ("C13", C13.flags tb), ("C14", C14.flags tb), ("C15", C15.flags tb), ("C16", C16.flags tb), ("C17", C17.flags tb), ("C18", C18.flags tb), ("C19", C19.flags tb), ("C20", C20.flags tb)]
 
 partial def loop (tb : Tables) (h : IO.FS.Stream) (out : IO.FS.Stream) : IO Unit := do
   let line ← h.getLine
